@@ -50,3 +50,12 @@ func decodingLayerDecoder(d layerDecodingLayer, data []byte, p gopacket.PacketBu
 
 // hacky way to zero out memory... there must be a better way?
 var lotsOfZeros [1024]byte
+
+// headerAndPayload returns contents followed by payload in a freshly allocated slice. Checksum verification
+// must not append to Contents: its spare capacity is the packet buffer itself, which may be shared with other
+// readers or be read-only (a NoCopy packet over a memory-mapped capture).
+func headerAndPayload(contents, payload []byte) []byte {
+	b := make([]byte, 0, len(contents)+len(payload))
+	b = append(b, contents...)
+	return append(b, payload...)
+}
